@@ -357,6 +357,10 @@ func (db *SpecDB) LoadFile(path, pkgPath string) error {
 					inner = inner[:j]
 				}
 				ss.Callee = inner
+			} else if strings.HasPrefix(site, "send(") && strings.HasSuffix(site, ")") {
+				// at send(ch): where a value is sent on the channel held in variable ch (also as a select case); the value is `sent`
+				ss.Kind = "send"
+				ss.Callee = site[5 : len(site)-1]
 			} else if strings.HasPrefix(site, "def(") && strings.HasSuffix(site, ")") {
 				// at def(x): where the local variable x is declared (x := ... / var x)
 				ss.Kind = "def"
